@@ -22,6 +22,10 @@ import CV.Proofs.StoreCatUsageC
 import CV.Proofs.StoreCatDerived
 import CV.Proofs.StoreCatUsageK
 import CV.Proofs.StoreCatUsageN
+import CV.Proofs.StoreGwProj
+import CV.Proofs.StoreGwTopo
+import CV.Proofs.StoreGwIngress
+import CV.Proofs.StoreGwCfg
 namespace CV.Props.C07
 open CV CV.Store
 
@@ -384,6 +388,106 @@ theorem usage_service_names_exact_partial (log : XLog) (hwf : XLog.wf log) (hcas
     (by simp [usageGet, XState.empty, tfind, lcNames])
   rw [h]; simp [usageOf, localServiceNames, lcNames]
 
+/-! ### stage 2: gateway-services and mesh-topology (CV.Store.GwX)
+
+`GState` = `XState` + the two tables, maintained by the hooks consul runs inside `ensureServiceTxn`, `deleteServiceTxn`,
+`insertConfigEntryWithTxn`, `deleteConfigEntryTxn`. The engine runs `applyG`; both tables are compared with the real
+store after every command (the `xdump` line). -/
+
+/-- **Stage 2 is a conservative extension**: the catalog component and the answer of the G-level step are those of
+    `applyX`; hence every theorem above about `replayX` holds of the catalog component of the state the engine keeps. -/
+theorem stage2_conservative_step (g : GState) (idx : Nat) (c : XCmd) :
+    ((applyG g idx c).1.x, (applyG g idx c).2) = applyX g.x idx c := proj_applyG g idx c
+
+theorem stage2_conservative_reachable (log : XLog) : (replayG GState.empty log).x = replayX XState.empty log :=
+  proj_replayG log GState.empty
+
+/-- hypothesis of the mesh-topology theorems on a log, for a set `Gn` of (lower-cased) gateway names: instance kinds are
+    real, proxy destinations are NUL-free and are not gateway names, config kinds are lower-case and NUL-free, ingress /
+    terminating gateway entries are named in `Gn`. -/
+def LogOkG (Gn : List String) (log : XLog) : Prop := XLog.gOk (WG Gn) (WcG Gn) log
+
+/-- **mesh-topology holds no stale sidecar pair, or it is known**: in every reachable state, every row whose downstream
+    is not a gateway name is declared by a sidecar registration (of the local or of an imported catalog: upstream `u` of a
+    connect-proxy instance with destination `d` gives the pair `u <- d`) — or its key is listed in the ghost record
+    `staleTopo`, which is written only when (a) a sidecar instance id is re-registered under another kind / destination /
+    upstream spelling, (b) an imported sidecar is deregistered (`cleanupMeshTopology` returns early for peers), (c) a local
+    sidecar is deregistered and a leftover reference keeps the row, (d) a connect-native instance is registered with
+    upstreams — and only for a pair that is then left without any declaring sidecar. -/
+theorem topology_sound_or_known_reachable (Gn : List String) (hGn : ∀ n ∈ Gn, NF n) (hnil : "" ∉ Gn) (log : XLog)
+    (hw : LogOkG Gn log) :
+    let g := replayG GState.empty log
+    ∀ r ∈ g.t.topo, lc r.dn ∉ Gn →
+      (∃ q, ∃ s ∈ (g.x.cat q).rows, s.2.kind = .connectProxy ∧ ∃ u ∈ s.2.ups, pk2 u s.2.dest = r.pk) ∨ r.pk ∈ g.gh.staleTopo := by
+  intro g r hr hout
+  rcases (gi_replayG hGn hnil log hw).sound r hr hout with ⟨q, s, hs, hd⟩ | h
+  · exact Or.inl ⟨q, s, hs, declares_iff.mp hd⟩
+  · exact Or.inr h
+
+/-- **mesh-topology misses no sidecar pair, or it is known**: in every reachable state every pair a LOCAL sidecar declares
+    (downstream not a gateway name) has its row — or its key is listed in `lostTopo`, written only when a registration /
+    deregistration removes the row of a pair that a local sidecar still declares: (e) `DeleteAll` when ONE sidecar drops the
+    upstream, (f) the last reference went while another declaring sidecar was not referenced. -/
+theorem topology_complete_or_known_reachable (Gn : List String) (hGn : ∀ n ∈ Gn, NF n) (hnil : "" ∉ Gn) (log : XLog)
+    (hw : LogOkG Gn log) :
+    let g := replayG GState.empty log
+    ∀ s ∈ g.x.loc.rows, s.2.kind = .connectProxy → lc s.2.dest ∉ Gn → NF s.2.dest → ∀ u ∈ s.2.ups,
+      (∃ r ∈ g.t.topo, r.pk = pk2 u s.2.dest) ∨ pk2 u s.2.dest ∈ g.gh.lostTopo := by
+  intro g s hs hk hout hnf u hu
+  rcases (gi_replayG hGn hnil log hw).complete s hs hk hout hnf u hu with h | h
+  · exact Or.inl (hasTopo_iff.mp h)
+  · exact Or.inr h
+
+/-- PARTIAL (log hypothesis "none of the recorded sidecar mechanisms fired": both ghost lists empty): on pairs whose
+    downstream is not a gateway name, mesh-topology is EXACTLY the set of pairs the sidecar registrations declare — every row
+    is declared, every locally declared pair has its row. -/
+theorem topology_sidecar_exact_partial (Gn : List String) (hGn : ∀ n ∈ Gn, NF n) (hnil : "" ∉ Gn) (log : XLog)
+    (hw : LogOkG Gn log) (hs : (replayG GState.empty log).gh.staleTopo = []) (hl : (replayG GState.empty log).gh.lostTopo = []) :
+    let g := replayG GState.empty log
+    (∀ r ∈ g.t.topo, lc r.dn ∉ Gn →
+      ∃ q, ∃ s ∈ (g.x.cat q).rows, s.2.kind = .connectProxy ∧ ∃ u ∈ s.2.ups, pk2 u s.2.dest = r.pk) ∧
+    (∀ s ∈ g.x.loc.rows, s.2.kind = .connectProxy → lc s.2.dest ∉ Gn → NF s.2.dest → ∀ u ∈ s.2.ups,
+      ∃ r ∈ g.t.topo, r.pk = pk2 u s.2.dest) := by
+  intro g
+  refine ⟨fun r hr hout => ?_, fun s hsr hk hout hnf u hu => ?_⟩
+  · rcases topology_sound_or_known_reachable Gn hGn hnil log hw r hr hout with h | h
+    · exact h
+    · rw [hs] at h; cases h
+  · rcases topology_complete_or_known_reachable Gn hGn hnil log hw s hsr hk hout hnf u hu with h | h
+    · exact h
+    · rw [hl] at h; cases h
+
+/-- **the gateway pairs of mesh-topology are complete, or it is known**: in every reachable state every ingress link of
+    gateway-services (a row of an ingress gateway for a named service — explicit or expanded from a wildcard) has its
+    (service <- gateway) pair in mesh-topology — or its key is listed in `lostIngress`, which is written only right after a
+    command that runs `cleanupGatewayWildcards` (a deregistration, the delete of a service-defaults entry): the wildcard link
+    of one listener went and `deleteGatewayServiceTopologyMapping` removed the pair another listener's link still needs. -/
+theorem topology_ingress_complete_or_known_reachable (Gn : List String) (hGn : ∀ n ∈ Gn, NF n) (hnil : "" ∉ Gn) (log : XLog)
+    (hw : LogOkG Gn log) :
+    let g := replayG GState.empty log
+    ∀ m ∈ g.t.gw, m.kind = .ingressGateway → m.service ≠ "*" →
+      (∃ r ∈ g.t.topo, r.pk = pk2 m.service m.gateway) ∨ pk2 m.service m.gateway ∈ g.gh.lostIngress := by
+  intro g m hm hk hs
+  rcases gic_replayG hGn hnil log hw m hm hk hs with h | h
+  · exact Or.inl (hasTopo_iff.mp h)
+  · exact Or.inr h
+
+/-- **gateway-services links only configured gateways**: in every reachable state, for every row of gateway-services there
+    is an ingress-gateway / terminating-gateway config entry — of the row's gateway kind — named like the row's gateway
+    (no link survives the delete of its gateway's entry, no link is created for a gateway without entry). -/
+theorem gateway_links_configured_reachable (Gn : List String) (hGn : ∀ n ∈ Gn, NF n) (hnil : "" ∉ Gn) (log : XLog)
+    (hw : LogOkG Gn log) :
+    let g := replayG GState.empty log
+    ∀ m ∈ g.t.gw, ∃ c ∈ g.x.cfg, (c.kind = "ingress-gateway" ∨ c.kind = "terminating-gateway") ∧ c.kind = cfgKindOf m.kind ∧
+      lc c.name = lc m.gateway :=
+  gcf_replayG hGn hnil log hw
+
+/-- every gateway-services row belongs to a gateway of `Gn` (a gateway whose config entry the log wrote), and the
+    gateway-services functions never touch a topology row whose downstream is not a gateway name -/
+theorem gateway_rows_named_reachable (Gn : List String) (hGn : ∀ n ∈ Gn, NF n) (hnil : "" ∉ Gn) (log : XLog)
+    (hw : LogOkG Gn log) : ∀ m ∈ (replayG GState.empty log).t.gw, lc m.gateway ∈ Gn :=
+  (gi_replayG hGn hnil log hw).tok.names
+
 /-! ### non-vacuity -/
 
 /-- a well-formed log exists that exercises registration, a sidecar, a check, a coordinate and a
@@ -412,5 +516,20 @@ theorem sampleLog_ok : LogOk sampleLog := by
   rcases hic with rfl | rfl | rfl | rfl | rfl <;> simp only [XCmd.reqOk]
   · intro q hq; simp at hq; subst hq; exact ⟨by decide, by decide⟩
   · intro q hq; simp at hq; subst hq; exact ⟨by decide, by decide⟩
+
+/-- the same log satisfies the hypothesis of the mesh-topology theorems for the gateway names the harness uses -/
+theorem sampleLog_okG : LogOkG ["ingress-gw", "term-gw"] sampleLog := by
+  have hweb : lc "web" = "web" := lc_of_toList _ _ (by decide)
+  intro ic hic
+  simp only [sampleLog, List.mem_cons, List.mem_nil_iff, or_false] at hic
+  rcases hic with rfl | rfl | rfl | rfl | rfl <;> simp only [XCmd.gOk]
+  · intro q hq; simp at hq; subst hq
+    refine ⟨⟨by decide, by decide⟩, NF_of_toList (by decide), ?_⟩
+    show lc "web" ∉ ["ingress-gw", "term-gw"]
+    rw [hweb]; decide
+  · intro q hq; simp at hq; subst hq
+    refine ⟨⟨by decide, by decide⟩, NF_of_toList (by decide), ?_⟩
+    show lc "" ∉ ["ingress-gw", "term-gw"]
+    rw [lc_eq_empty.mpr rfl]; decide
 
 end CV.Props.C07
